@@ -11,6 +11,31 @@ CHECKS = {
             "Every op variant at every operand-width boundary, every sequence over a per-variant menu, every 32-bit operand pattern (thorough; boundary windows quick), every byte string up to 2 (3) bytes and every truncated payload are run through the real serialize/deserialize; VarRemover is driven as a state machine over a 29-op alphabet (every history up to length 5 (6) without merging, BFS to depth 7 (8) with merging on the drained dvi::Values state) and compared after every history with an independent position tracker. Coverage statement, not a sample.",
             "Trusted: the 120-line position tracker reftex::dvipos (bound to the crate's own dvi::Values on every history); DVI grammar restrictions (post_post last, strings <= 255 bytes); positions stay inside i32.",
             "3 C16"),
+    "C01": ("model_checking",
+            "bounded-exhaustive enumeration of group/assignment histories on the real VM, compared with a stack-of-snapshots model after every operation, plus explicit-state BFS with merging on the drained implementation state",
+            "For 23 target kinds (all register kinds incl. aliases and \\advance, both catcode and mathcode tables, \\endlinechar, parameters, \\newInt(Array), macros, \\let, \\countdef/\\toksdef/\\chardef/\\mathchardef each also on active characters, font selectors, \\globaldefs) every history of { } local global of length 7 (9, closed 10) on one target, 5 (7) on two colliding targets, depth-8 nests with up to 2 (3) assignment clusters in every slot, and every pair of kinds is run on a fresh real VM with a probe after every operation and compared with the model. An explicit-state search per kind merges histories on (depth, value at every open level drained from the real VM) and reaches the fixpoint of the reachable state space in the thorough tier.",
+            "Trusted: the snapshot model in c01/src/model.rs (tex.web 268-284, 1211-1218), self-validated against 17 expectations of the repository's own tests. Hash order inside the subject is not controllable: failing cases are re-executed 5x. \\gdef under negative \\globaldefs and \\let to an undefined command are outside the statement.",
+            "3 C01"),
+    "C08": ("fault_enumeration",
+            "every line boundary of every enumerated program as a checkpoint (serialise, deserialise, continue) in three formats; differential oracle against the uninterrupted run",
+            "Programs of 1-3 (4) one-line fragments over a 41-fragment alphabet (definitions incl. active characters, aliases of every command kind, all register kinds, both code tables, \\endlinechar, \\globaldefs, open groups with saved values, open conditionals, fonts, \\newInt, interner growth) plus sequences of stream operations with open \\read files: after every line the VM is serialised and deserialised with JSON, MessagePack and bincode through the same calls as the repository's serde tests, and the rest of the program plus an observer that prints 31 targets and drains every open conditional and group must produce identical tokens and error. Second oracle on a subset: ser(de(ser(vm))) equals ser(vm) as canonicalised JSON.",
+            "Trusted: the differential itself (no model). File system and terminal are re-attached after load (serde(skip) by design). Checkpoints with pending input are outside the property.",
+            "3 C08"),
+    "C13": ("exploration",
+            "bounded-exhaustive enumeration of pattern sets x exception lists x words against Liang's rule evaluated by definition",
+            "Every single pattern of up to 3 letters over {a,b} with anchors and digits, every unordered pair of 1128 patterns in both load orders, exception entries with every hyphen placement against every pattern set of size <= 1 and against pairs, lists of two exceptions, long patterns around the 16-zero-run encoding (14..18, 30..34 letters) with words up to 40 letters, and plain TeX's own 4447 patterns on 16753 words, each looked up through the real calculate_indices for every word of length <= 4 (6) in all letter cases and compared with reftex::liang (max digit over all matches, odd = hyphen, exceptions win). 2.8e8 (4e9) lookups.",
+            "Trusted: reftex::liang (TeX 919-931, 935-941, 962-963), self-validated on every run against the crate's 20 recorded hyphenations and 3 score vectors under plain TeX's patterns. Duplicate patterns on one letter string are outside the domain (TeX 963 rejects them). Known findings D11, D11b, D11c (exceptions stored as 6/7 patterns) are matched by predicate on the case + exact adjusted model.",
+            "3 C13"),
+    "C14": ("exploration",
+            "bounded-exhaustive enumeration of horizontal lists in cmr10 and in synthetic fonts (every lig/kern program of 1-2 rules touching the hyphen and the boundaries) against a transliteration of TeX's hyphenation pass",
+            "47 cmr10 words crossing every ligature at a cut (plus 63/64/65-letter words, capitals, explicit hyphens) x 12 sentence templates x {plain TeX patterns, every position} x all hyphen minima, ordered word pairs, and synthetic fonts whose program is every single rule / every pair of 400 rules over {left boundary, a, b, -} x {a, b, -, right boundary} x all 8 ligature kinds and kerns, on every word <= 4 over {a,b} in 7 templates: after the real hyphenation pass (1) deleting the inserted discretionaries restores the list node for node, (2) letters are conserved at every discretionary, (3) cuts sit exactly where TeX's pass (reftex::liang hyphenate_list: 894-918 incl. reconstitute) offers them, in exactly the words TeX's finder selects. 3.7e6 (1.0e8) lists.",
+            "Trusted: reftex::liang's pass model, which must reproduce all 33 TeX-verified expectations of the repository's boxworks-hyphenate tests node for node before a run starts. Programs with infinite ligature loops and TeX's own hyf_bchar quirk cases (decided by the model) are outside the domain. Known finding D21b (left context node before the word not used when rebuilding) matched by predicate + adjusted model.",
+            "3 C14"),
+    "C20": ("model_checking",
+            "explicit-state BFS over container histories with merging on exact implementation state; exhaustive enumeration of all histories/patterns/texts; exhaustive DFS over thread schedules (shuttle) of the real tag code through the guarded sync seam",
+            "Grouping map: every history of length <= 7 (8) over {insert(k,v,Local|Global), begin_group, end_group} on both GroupingHashMap and GroupingVec without merging, and BFS to depth 11 (14) with merging on the container's own iter_all/drain state, compared with reftex::scope after every step; replay law from_iter(iter_all()) checked at every state incl. continuations. Interner: every history <= 5 (6) of get_or_intern/get/resolve over prefix-sharing strings under RandomState and under a constant hasher, with a serde round trip at every position. KMP matcher: every pattern <= 5 x text <= 12 over {a,b}, <= 4 x <= 10 (12) over {a,b,c}. Tags: EVERY schedule (shuttle check_dfs, no bound) of 2-3 threads x Tag::new / StaticTag::get: all tags pairwise distinct, every get() equal, no deadlock; 3.7e4 (3.5e7) schedules.",
+            "Trusted: reftex::scope, naive search, Vec<String>; the 110-line seam module (commit b5096a6, cfg texcraft_verif_sched) whose OnceLock follows the contract of std's get_or_init; shuttle explores sequentially consistent interleavings at lock acquire/release (adequate for mutex-protected sections; data races are outside). GroupingVec == is judged only when slot counts agree (derived PartialEq distinguishes [None] from []; not observable behaviour).",
+            "3 C20"),
     "C04": ("exploration",
             "bounded-exhaustive enumeration of paragraphs against brute force over every break sequence, plus a per-step check of every logged feasible breakpoint",
             "Every list of 4 (5) boxes over a 27-item separator menu (glue lattices, penalties incl. forced/forbidden, discretionaries with pre/post/replace material, kerns, math, adjacent discardables) x width sequences x tolerances (incl. > 10000) x parameter deviations x looseness is broken by the real break_line_single_attempt and compared with reftex::kp: Some iff a feasible sequence exists, the returned sequence is feasible and demerit-minimal among ALL sequences, looseness per TeX 875; every feasible breakpoint the implementation logs must carry the badness/penalty/demerits the model computes. 1.4e7 (3e8) instances.",
